@@ -1710,6 +1710,14 @@ class GroupBy:
 
         return_polars = self._values_is_polars(type_list)
 
+        if isinstance(times, (pd.Series, pd.DataFrame)):
+            # times are taken positionally below: their index must be the inputs' index
+            reference = common_index if common_index is not None else self._key_index
+            if reference is not None and not times.index.equals(reference):
+                raise ValueError(
+                    "Pandas index of times does not match that of the inputs"
+                )
+
         if self.key_is_chunked:
             # the kernels need one global code per row (chunks hold local codes)
             self._unify_group_key_chunks()
@@ -1846,7 +1854,13 @@ class GroupBy:
         """
         # check for nullity
         kwargs = dict(agg_func=agg_func, margins=margins, values=values)
-        return self.agg(**kwargs, mask=subset_mask & global_mask) / self.agg(
+        if global_mask is None:
+            combined_mask = subset_mask
+        else:
+            # '&' on two Series aligns by label: compare lengths and indexes first
+            _validate_input_lengths_and_indexes([subset_mask, global_mask])
+            combined_mask = subset_mask & global_mask
+        return self.agg(**kwargs, mask=combined_mask) / self.agg(
             **kwargs, mask=global_mask
         )
 
